@@ -2,7 +2,7 @@
 # runs every quick command on the current tree (regenerates all evidence files)
 cd "$(dirname "$0")"
 rc=0
-for id in C01 C02 C03 C04 C05 C06 C07 C08 C09 C11 C12 C13 C14 C15 C16 C18 C19; do
+for id in C01 C02 C03 C04 C05 C06 C07 C08 C09 C10 C11 C12 C13 C14 C15 C16 C18 C19; do
   s=$(date +%s)
   out=$(./check $id --tier quick 2>&1 | grep -E "^$id:|VIOLATION" | tail -2 | cut -c1-300); r=$?
   e=$(date +%s)
